@@ -8,6 +8,11 @@ use super::{check_answers, common_stats, go_views, panic_kind, Outcome, Violatio
 use crate::verif_hooks::Site;
 
 pub fn light_schedule(plan: &mut Plan, rng: &mut Rng) {
+    if rng.chance(1, 4) {
+        // a quarter of the runs get the full schedule space
+        gen::schedule(plan, rng, 20_000);
+        return;
+    }
     plan.sched_seed = rng.next_u64();
     plan.policy = Some(match rng.below(4) {
         0 | 1 => Policy::Quiet,
@@ -57,12 +62,17 @@ pub fn session_script(rng: &mut Rng, mut pick_limits: impl FnMut(&mut Rng, bool)
     // Half of the sessions continue ONE game the way a GUI does (the same game, a ply or
     // two longer each time), so that later roots lie inside earlier search trees.
     let continuation = rng.chance(1, 2);
+    let eager = rng.chance(1, 3);
     let gos = rng.range(1, max_gos);
     for k in 0..gos {
         let l = pick_limits(rng, spec.dense);
         s.push(Action::send(l.line(Some(rng))));
         s.push(Action::WaitBestmove);
-        s.push(Action::WaitIdle);
+        // usually the GUI's next command finds the search thread gone; sometimes it arrives
+        // in the instant after the bestmove
+        if !eager || rng.chance(1, 2) {
+            s.push(Action::WaitIdle);
+        }
         if k + 1 < gos && rng.chance(1, 4) {
             // the GUI thinks for a while (discrete-event time: the clock jumps)
             s.push(Action::DelayNs(rng.range(1_000_000, 3_000_000_000)));
@@ -169,7 +179,27 @@ pub fn check(plans: &[Plan], recs: &[RunRec]) -> Outcome {
         if g.stall_ns > 0 {
             out.stats.inc("reach.stall_during_search");
         }
-        if g.bestmoves.is_empty() && !g.thread_ended {
+        if g.bestmoves.is_empty() && !g.thread_ended && g.tid.is_some() {
+            // still searching when the run ended: overdue if the limits' deadline passed long ago
+            if let Some(dl) = l.deadline_ms(white) {
+                let last = rec.events.last().map_or((0, 0), |e| (e.clock, e.stalled));
+                let work = last.0.saturating_sub(v.deliver_clock).saturating_sub(last.1.saturating_sub(v.deliver_stalled));
+                let allow = dl.saturating_mul(1_000_000).saturating_add(W_ALLOW_TICKS * plan.cost_ns);
+                if work > allow {
+                    out.violations.push(Violation::new(
+                        "over_deadline",
+                        format!(
+                            "go #{} ({:?}), {} to move: limits allow {dl} ms, still no bestmove after {:.3} ms of work (run ended by {:?})",
+                            v.idx,
+                            v.text,
+                            if white { "white" } else { "black" },
+                            work as f64 / 1e6,
+                            rec.end
+                        ),
+                    ));
+                    continue;
+                }
+            }
             if capped {
                 out.stats.inc("inconclusive.search_alive_at_cap");
             }
@@ -177,12 +207,13 @@ pub fn check(plans: &[Plan], recs: &[RunRec]) -> Outcome {
         }
         // timing: work time from go to bestmove within what the limits allow
         if let (Some(b), Some(dl)) = (g.bestmoves.first(), l.deadline_ms(white)) {
-            let work = b.clock.saturating_sub(v.deliver_clock).saturating_sub(g.stall_ns);
+            let injected = b.stalled.saturating_sub(v.deliver_stalled);
+            let work = b.clock.saturating_sub(v.deliver_clock).saturating_sub(injected);
             let allow = dl.saturating_mul(1_000_000).saturating_add(W_ALLOW_TICKS * plan.cost_ns);
             out.stats.inc("deadline_checked");
             let over_ticks = work.saturating_sub(dl.saturating_mul(1_000_000)) / plan.cost_ns.max(1);
             out.stats.max("ticks_past_deadline", over_ticks);
-            if g.stall_ns > 0 && work < dl.saturating_mul(1_000_000) {
+            if injected > 0 && work < dl.saturating_mul(1_000_000) {
                 out.stats.inc("reach.deadline_cut_short_by_stall");
             }
             if work > allow {
